@@ -136,20 +136,50 @@ def run(ctx):
     for li in range(nlang):
         spec = G.gen_lang(rng, max_base=5, max_ops=2, max_arity=2)
         opdecls = X.gen_operators(rng, spec, allow_prod=rng.random() < 0.3)
+        language_histories(ctx, li, spec, opdecls, nhist, [])
+    polyconst_family(ctx)
+
+
+def polyconst_family(ctx):
+    """polymorphic DATA constants (nil : L(x)) next to functions over them: a use at one instantiation must not fix the constant's
+    variable for later uses"""
+    rng = ctx.rng
+    decls = list(G.BUILTIN_DECLS) + [("A", [], None), ("B", [], None), ("N", [], None), ("A1", [], 5), ("L", [True], None)]
+    spec = G.LangSpec(decls)
+    x = ('v', 0)
+    A, B, N, A1 = (5, ()), (6, ()), (7, ()), (8, ())
+    L = lambda t: (9, (t,))  # noqa
+    opdecls = [("nil", {"nvars": 1, "nwild": 0, "body": L(x), "constraints": []}),
+               ("cons", {"nvars": 1, "nwild": 0, "body": X.fun(x, L(x), L(x)), "constraints": []}),
+               ("a", {"nvars": 0, "nwild": 0, "body": A, "constraints": []}),
+               ("b", {"nvars": 0, "nwild": 0, "body": B, "constraints": []}),
+               ("a1", {"nvars": 0, "nwild": 0, "body": A1, "constraints": []}),
+               ("len", {"nvars": 1, "nwild": 0, "body": X.fun(L(x), N), "constraints": []}),
+               ("wrap", {"nvars": 1, "nwild": 0, "body": X.fun(x, L(x)), "constraints": []}),
+               ("cat", {"nvars": 1, "nwild": 0, "body": X.fun(L(x), L(x), L(x)), "constraints": []})]
+    extra = ["nil", "cons a nil", "cons b nil", "cons a1 nil", "len nil", "cons a (cons a nil)", "cons b (cons b nil)", "len (cons b nil)",
+             "cat nil nil", "cat (wrap a) nil", "cat nil (wrap b)", "cons a (cat nil nil)", "cons a1 (cons a nil)", "cat (cons a nil) (cons a1 nil)"]
+    ctx.count("polyconst_languages")
+    language_histories(ctx, "polyconst", spec, opdecls, 60 if ctx.tier == "quick" else 200, extra)
+
+
+def language_histories(ctx, li, spec, opdecls, nhist, extra_pool):
+    rng = ctx.rng
+    if True:
         try:
             ops0, lang0, operators0 = fresh(spec, opdecls)
         except Exception:  # noqa
             ctx.count("language_rejected")
-            continue
+            return
         ctx.setup(spec.sexp(), "ok T")
         ctx.setup("(aliases)", "ok")
         ctx.setup(X.operators_line(opdecls), "ok")
         ninputs = rng.randint(0, 2)
         trees = X.gen_typed_trees(rng, lang0, spec, opdecls, ninputs, rounds=3, per_round=10)
-        pool = [X.tree_text(t) for t in trees]
+        pool = [X.tree_text(t) for t in trees] + list(extra_pool)
         bad = [PG.mutate(rng, t) for t in pool[:10]] + [X.tree_text(("app", ("op", rng.choice(opdecls)[0]), ("op", rng.choice(opdecls)[0]))) for _ in range(5)]
         if not pool:
-            continue
+            return
         plain_cases(ctx, li, spec, opdecls, rng)
         for k in range(nhist):
             history = gen_history(rng, spec, opdecls, pool, bad, rng.randint(3, 30))
